@@ -92,6 +92,9 @@ def run(F, R):
     by = {}
     for k, v in roles.items():
         by.setdefault(v, []).append(k)
+    # E19: what the driver notifies the device about has been made visible: the available index is published by a plain store (C02.O3)
+    from .C02 import publication_rule
+    guard(R, 'E19', 'publication', lambda: publication_rule(F, R, 'E19'))
     for need in ('add', 'pop_used', 'can_pop'):
         if need not in by:
             raise Undecided('queue API role %s not found' % need)
